@@ -318,6 +318,10 @@ func runCodec(ctx *core.Ctx, cases []*ProgCase, langs []string) []string {
 // count prefixes, the pad options for fixed strings). Options that cannot matter for that field are
 // left out of the signature, so that one defect has one signature under every irrelevant option.
 func optsFor(p *dsl.Program, desc string) string {
+	return optsOnly(p, desc) + shapeSuffix(p.Name)
+}
+
+func optsOnly(p *dsl.Program, desc string) string {
 	rel := map[string]bool{}
 	d := strings.ToLower(desc)
 	has := func(w string) bool { return strings.Contains(d, w) }
